@@ -88,9 +88,11 @@ StbTabEntry(b, y, m, acc) == IF m = 8 THEN << acc[4], acc[3], acc[2], acc[1] >>
    ELSE StbTabEntry(b, y, m + 1, IF (y \div Pow2(m)) % 2 = 1 THEN W64Xor(acc, StbA[64 - 8*b - m]) ELSE acc)
 RECURSIVE StbTabRow(_, _, _)
 StbTabRow(b, x, acc) == IF x = 256 THEN acc ELSE StbTabRow(b, x + 1, Append(acc, StbTabEntry(b, StbPi[x + 1], 0, W64Zero)))
-\* built with Append so that the value is a real tuple (a [x \in S |-> e] value is re-evaluated on every access)
-StbTabP == << StbTabRow(0, 0, << >>), StbTabRow(1, 0, << >>), StbTabRow(2, 0, << >>), StbTabRow(3, 0, << >>),
-             StbTabRow(4, 0, << >>), StbTabRow(5, 0, << >>), StbTabRow(6, 0, << >>), StbTabRow(7, 0, << >>) >>
+StbTabPdef == << StbTabRow(0, 0, << >>), StbTabRow(1, 0, << >>), StbTabRow(2, 0, << >>), StbTabRow(3, 0, << >>),
+                StbTabRow(4, 0, << >>), StbTabRow(5, 0, << >>), StbTabRow(6, 0, << >>), StbTabRow(7, 0, << >>) >>
+\* TLC does not cache a constant whose definition uses the Bitwise operators (measured: the table was rebuilt on every
+\* reference), so the literal copy StbTabP in StreebogTables is what StbLPS indexes; it must equal the derivation:
+ASSUME StbTabP = StbTabPdef
 StbXor4(p, q) == << p[1] ^^ q[1], p[2] ^^ q[2], p[3] ^^ q[3], p[4] ^^ q[4] >>
 \* part i of LPS(v): octet i of every 64-bit part b of v is moved by P to octet b of part i
 StbLPSPart(v, i) ==
@@ -114,6 +116,8 @@ StbStage2(st, msg, off, n) ==
    IF n - off < 64 THEN st
    ELSE LET m == StbFromBytes(msg, off)
         IN StbStage2(<< StbG(st[2], st[1], m), StbAdd(st[2], StbV512), StbAdd(st[3], m) >>, msg, off + 64, n)
+\* the padded message: 0x01 then zeros up to the next block boundary (always at least one octet, RFC 6986 stage 3)
+StbPad(msg) == msg \o << 1 >> \o Zeros(63 - (Len(msg) % 64))
 \* stage 3: the remaining r < 64 octets, padded with 0x01 then zeros
 StbStage3(st, msg, n) ==
    LET r == n % 64
